@@ -8,24 +8,10 @@ import (
 )
 
 func main() {
-	f := univ.Gen("opaque.lazy_tree.Node")
-	in := []byte{0x9a, 0x06, 0x02, 0x08, 0x05, 0x9a, 0x06, 0x00}
-	// 99:msg{<unk>}: find unknown number
-	md := f.MT.Descriptor()
-	fmt.Println(univ.UnusedNumbers(md))
-	in = []byte{0x9a, 0x06, 0x03, 0x80, 0x01, 0x05, 0x9a, 0x06, 0x00}
-	m, err := f.Unmarshal(in, proto.UnmarshalOptions{AllowPartial: true})
-	fmt.Println(err)
-	mi := m.Interface()
-	mo := proto.MarshalOptions{AllowPartial: true}
-	fmt.Println("size", mo.Size(mi))
-	b, _ := mo.Marshal(mi)
-	fmt.Printf("marshal %x\n", b)
-	fmt.Println("size", mo.Size(mi))
-	for _, p := range [][]byte{nil, {}, make([]byte, 0, 64), {1}, {1, 2, 3}} {
-		out, err := mo.MarshalAppend(p, mi)
-		fmt.Printf("append %x %v\n", out, err)
+	for _, f := range []univ.Flavor{univ.Gen("goproto.proto.test.TestAllTypes"), univ.Dyn("goproto.proto.test.TestAllTypes")} {
+		// field 21 optional_nested_enum = 12345 ; 51 repeated_nested_enum ; map 73 map_string_nested_enum
+		in := []byte{0xa8, 0x01, 0xb9, 0x60}
+		m, err := f.Unmarshal(in, proto.UnmarshalOptions{})
+		fmt.Println(f.Name, err, univ.Snapshot(m))
 	}
-	b, _ = mo.Marshal(mi)
-	fmt.Printf("marshal %x\n", b)
 }
